@@ -380,6 +380,7 @@ class Ctx(object):
         self.t0 = time.time()
         self.rng = random.Random(seed)
         self.only = None
+        self.bounds_tier = None
 
     def want(self, clause):
         """False when --only was given and does not name this clause (debugging aid)."""
@@ -388,10 +389,15 @@ class Ctx(object):
 
     @property
     def quick(self):
-        return self.tier == "quick"
+        return (self.bounds_tier or self.tier) == "quick"
 
     def pick(self, quick, thorough):
-        return quick if self.tier == "quick" else thorough
+        return quick if (self.bounds_tier or self.tier) == "quick" else thorough
+
+    def use_thorough_bounds(self, why):
+        """For checks whose thorough exploration is cheap enough to run on every change."""
+        self.bounds_tier = "thorough"
+        self.bound("quick_tier_runs_thorough_bounds", why)
 
     def bound(self, name, value):
         self.bounds[name] = jsonable(value)
